@@ -1,8 +1,267 @@
+/-
+Driver for suite "release" (property C19): release policies, fuzz, closed-loop
+bookkeeping, workload loader, worker loader.  One JSON case in, one reply out.
+-/
 import ErdosVerif.Driver.Util
+import ErdosVerif.Model.Release
+import ErdosVerif.Model.Loader
 namespace ErdosVerif.Driver.Release
-open Lean ErdosVerif.Driver
+open Lean ErdosVerif.Driver ErdosVerif.Release ErdosVerif.Loader
 
-/-- Suite handler: one JSON case in, one JSON reply out (stub until the suite is built). -/
-def handle (_j : Json) : Json := Json.mkObj [("protocol_error", Json.str "suite-not-built")]
+/-! ### decoding -/
+
+def oInt (j : Json) (k : String) : Except String (Option Int) :=
+  match fldOpt j k with
+  | none => pure none
+  | some v => do pure (some (← v.getInt?))
+
+def oStr (j : Json) (k : String) : Except String (Option String) :=
+  match fldOpt j k with
+  | none => pure none
+  | some v => do pure (some (← v.getStr?))
+
+def dBool (j : Json) (k : String) : Bool :=
+  match fldOpt j k with
+  | some (.bool b) => b
+  | _ => false
+
+def oArr (j : Json) (k : String) : Except String (Option (List Json)) :=
+  match fldOpt j k with
+  | none => pure none
+  | some v => do pure (some (← v.getArr?).toList)
+
+def dInt (j : Json) (k : String) (d : Int) : Except String Int := do
+  pure ((← oInt j k).getD d)
+
+def intList (l : List Json) : Except String (List Int) := mapM' (fun (v : Json) => v.getInt?) l
+
+def parseKind : String → Except String Kind
+  | "periodic" => pure .periodic
+  | "fixed" => pure .fixed
+  | "poisson" => pure .poisson
+  | "gamma" => pure .gamma
+  | "closed_loop" => pure .closedLoop
+  | s => .error s!"bad-kind {s}"
+
+def kindStr : Kind → String
+  | .periodic => "periodic"
+  | .fixed => "fixed"
+  | .poisson => "poisson"
+  | .gamma => "gamma"
+  | .closedLoop => "closed_loop"
+
+def parseDraws (v : Option Json) : Except String Draws :=
+  match v with
+  | none => pure .none
+  | some j =>
+    match fldOpt j "ints" with
+    | some a => do pure (.ints (← intList (← a.getArr?).toList))
+    | none => do
+      let den ← fldNat j "den"
+      let nums ← intList (← fldArr j "nums")
+      pure (.dyadic den nums)
+
+def parsePolicy (j : Json) : Except String Policy := do
+  pure { kind := ← parseKind (← fldStr j "kind")
+         period := ← dInt j "period" (-1)
+         n := ← dInt j "n" (-1)
+         conc := ← dInt j "conc" 0
+         start := ← dInt j "start" 0 }
+
+def parseResReq (j : Json) : Except String ResReqD := do
+  pure { key := ← fldStr j "key", qty := ← fldInt j "qty" }
+
+def parseStrategy (j : Json) : Except String StrategyD := do
+  let res ← match ← oArr j "res" with
+    | none => pure none
+    | some l => do pure (some (← mapM' parseResReq l))
+  pure { res := res, batch := ← oInt j "batch", runtime := ← oInt j "runtime" }
+
+def parseStrategies (j : Json) (k : String) : Except String (Option (List StrategyD)) := do
+  match ← oArr j k with
+  | none => pure none
+  | some l => do pure (some (← mapM' parseStrategy l))
+
+def parseProfile (j : Json) : Except String ProfileD := do
+  pure { name := ← oStr j "name", loading := ← parseStrategies j "loading", exec := ← parseStrategies j "exec" }
+
+def parseNode (j : Json) : Except String NodeD := do
+  let ch ← match ← oArr j "children" with
+    | none => pure none
+    | some l => do pure (some (← mapM' (fun (v : Json) => v.getStr?) l))
+  pure { name := ← fldStr j "name", profile := ← oStr j "profile", slo := ← oInt j "slo"
+         cond := dBool j "cond", term := dBool j "term", prob := ← oInt j "prob", children := ch }
+
+def parseGraph (j : Json) : Except String GraphD := do
+  let nodes ← match ← oArr j "nodes" with
+    | none => pure none
+    | some l => do pure (some (← mapM' parseNode l))
+  let var ← match ← oArr j "variance" with
+    | some [a, b] => do pure (some ((← a.getInt?), (← b.getInt?)))
+    | none => pure none
+    | _ => .error "bad-variance"
+  pure { name := ← oStr j "name", nodes := nodes, policy := ← oStr j "policy"
+         period := ← oInt j "period", invocations := ← oInt j "invocations"
+         concurrency := ← oInt j "concurrency", start := ← oInt j "start"
+         rate := dBool j "rate", coefficient := dBool j "coefficient", variance := var }
+
+def parseWorkloadD (j : Json) : Except String WorkloadD := do
+  let ps ← match ← oArr j "profiles" with
+    | none => pure none
+    | some l => do pure (some (← mapM' parseProfile l))
+  let gs ← match ← oArr j "graphs" with
+    | none => pure none
+    | some l => do pure (some (← mapM' parseGraph l))
+  pure { profiles := ps, graphs := gs }
+
+def parseFlags (j : Json) : Except String Flags := do
+  pure { period := ← dInt j "period" 0, n := ← dInt j "n" 0, rate := dBool j "rate", coef := dBool j "coef"
+         slo := ← dInt j "slo" (-1), unique := dBool j "unique", repl := ← dInt j "repl" 1
+         minDeadline := ← dInt j "min_deadline" 0
+         maxDeadline := ← dInt j "max_deadline" 9223372036854775807 }
+
+def parsePool (j : Json) : Except String PoolD := do
+  let ws ← match ← oArr j "workers" with
+    | none => pure none
+    | some l => do
+      pure (some (← mapM' (fun (w : Json) => do
+        let rs ← match ← oArr w "resources" with
+          | none => pure none
+          | some rl => do
+            pure (some (← mapM' (fun (r : Json) => do
+              pure ({ name := ← oStr r "name", qty := ← oInt r "quantity" } : WResD)) rl))
+        pure ({ name := ← oStr w "name", resources := rs } : WorkerD)) l))
+  pure { name := ← oStr j "name", workers := ws }
+
+/-! ### encoding -/
+
+def jStr (s : String) : Json := Json.str s
+
+def resJ (r : Res) : Json := Json.arr #[jStr r.name, jStr r.id, jInt r.qty]
+
+def strategyJ (s : Strategy) : Json :=
+  Json.mkObj [("res", match s.res with | none => Json.null | some l => jList resJ l),
+              ("batch", jInt s.batch), ("runtime", jInt s.runtime)]
+
+def instJ (p : ProfileInst) : Json :=
+  Json.mkObj [("name", jStr p.name), ("loading", jList strategyJ p.loading), ("exec", jList strategyJ p.exec)]
+
+def policyJ (p : Policy) : Json :=
+  Json.mkObj [("kind", jStr (kindStr p.kind)), ("period", jInt p.period), ("n", jInt p.n),
+              ("conc", jInt p.conc), ("start", jInt p.start)]
+
+def nameOf (jobs : List Job) (i : Nat) : String := (jobs.getD i default).name
+
+def jobGraphJ (insts : List ProfileInst) (jg : JobGraph) (ls : LoopState) : Json :=
+  Json.mkObj [
+    ("name", jStr jg.name), ("policy", policyJ jg.policy),
+    ("variance", Json.arr #[jInt jg.variance.1, jInt jg.variance.2]),
+    ("jobs", jList (fun (p : Job × List Nat) =>
+      Json.mkObj [("name", jStr p.1.name), ("profile", jNat p.1.profile), ("slo", jInt p.1.slo),
+                  ("cond", Json.bool p.1.cond), ("term", Json.bool p.1.term), ("prob", jInt p.1.prob),
+                  ("children", jList (fun c => jStr (nameOf jg.jobs c)) p.2)])
+      (jg.jobs.zip jg.children)),
+    -- an empty graph has `completion_time = None` (only `None.fuzz` fails, on the first release)
+    ("T", if jg.jobs.isEmpty then jStr "None" else
+          match completionTime insts jg with | .ok t => jInt t | .error e => jStr e),
+    ("remaining", jInt ls.remaining), ("index", jInt ls.index)]
+
+def taskGraphJ (jg : JobGraph) (tg : TaskGraph) : Json :=
+  Json.mkObj [
+    ("name", jStr tg.name),
+    ("ids", jList (fun (t : Task) => jNat t.id) tg.tasks),
+    ("tasks", jList (fun i =>
+      let t := tg.tasks.getD i default
+      Json.mkObj [("name", jStr t.name), ("tg", jStr t.taskGraph), ("job", jStr (nameOf jg.jobs t.job)),
+                  ("ts", jInt t.timestamp), ("release", jInt t.release), ("deadline", jInt t.deadline),
+                  ("profile", jNat t.profile), ("prob", jInt t.prob),
+                  ("children", jList (fun c => jStr (tg.tasks.getD c default).name) (tg.children.getD i []))])
+      tg.order)]
+
+def loadedJ (ld : Loaded) : Json :=
+  Json.mkObj [
+    ("insts", jList instJ ld.insts),
+    ("job_graphs", jList (fun (p : JobGraph × LoopState) => jobGraphJ ld.insts p.1 p.2) (ld.jobGraphs.zip ld.loops)),
+    ("task_graphs", Json.arr ((ld.jobGraphs.zip ld.taskGraphs).flatMap
+        (fun (p : JobGraph × List TaskGraph) => p.2.map (taskGraphJ p.1))).toArray)]
+
+def poolJ (p : Pool) : Json :=
+  Json.mkObj [("name", jStr p.name),
+    ("workers", jList (fun (w : Worker) =>
+      Json.mkObj [("name", jStr w.name), ("resources", jList resJ w.resources)]) p.workers)]
+
+def exceptJ (r : Except String Json) : Json :=
+  match r with
+  | .ok j => Json.mkObj [("ok", j)]
+  | .error e => errJ e
+
+/-! ### operations -/
+
+/-- history of completions against a loaded workload: `[[graph index, tg index, finish]]` -/
+def runHistory (f : Flags) : Loaded → List (Nat × Int × Int) → List Json → Loaded × List Json
+  | ld, [], acc => (ld, acc)
+  | ld, (gi, idx, fin) :: h, acc =>
+    match notifyCompletion f ld gi idx fin with
+    | .error e => (ld, acc ++ [errJ e])
+    | .ok (ld1, none) => runHistory f ld1 h (acc ++ [Json.null])
+    | .ok (ld1, some tg) => runHistory f ld1 h (acc ++ [taskGraphJ (ld1.jobGraphs.getD gi default) tg])
+
+def parseHistory (l : List Json) : Except String (List (Nat × Int × Int)) :=
+  mapM' (fun (v : Json) => do
+    match (← v.getArr?).toList with
+    | [a, b, c] => pure ((← a.getNat?), (← b.getInt?), (← c.getInt?))
+    | _ => .error "bad-history") l
+
+def handleE (j : Json) : Except String Json := do
+  match ← fldStr j "op" with
+  | "policy" =>
+    let p0 ← parsePolicy j
+    match (if p0.kind = .closedLoop then mkClosedLoop p0.conc p0.n p0.start else .ok p0) with
+    | .error e => pure (errJ e)
+    | .ok p =>
+    let h ← oInt j "horizon"
+    let d ← parseDraws (fldOpt j "draws")
+    pure (exceptJ ((getReleaseTimes p h d).map (jList jInt)))
+  | "fuzz" =>
+    pure (Json.mkObj [("ok", jInt (fuzz (← fldInt j "T") (← fldInt j "a") (← fldInt j "b")
+      (← fldInt j "minb") (← fldInt j "maxb") (← fldInt j "rn")))])
+  | "loop" =>
+    let s0 := loopInit (← fldInt j "conc") (← fldInt j "n") (← fldInt j "start")
+    let hist ← mapM' (fun (v : Json) => do
+      match (← v.getArr?).toList with
+      | [a, b] => pure ((← a.getInt?), (← b.getInt?))
+      | _ => .error "bad-history") (← fldArr j "history")
+    let (_, trace) := hist.foldl (fun (acc : LoopState × List Json) (e : Int × Int) =>
+      let (s, tr) := acc
+      let (s1, r) := loopComplete s e.1 e.2
+      (s1, tr ++ [Json.mkObj [("released", jOptInt r), ("inflight", jList jInt s1.inflight),
+                              ("remaining", jInt s1.remaining), ("index", jInt s1.index)]])) (s0, [])
+    let sf := loopRun s0 hist
+    pure (Json.mkObj [("init", Json.mkObj [("inflight", jList jInt s0.inflight), ("remaining", jInt s0.remaining),
+                                            ("index", jInt s0.index)]),
+                      ("trace", Json.arr trace.toArray),
+                      ("released", jList (fun (p : Int × Int) => Json.arr #[jInt p.1, jInt p.2]) sf.released)])
+  | "workload" =>
+    let d ← parseWorkloadD (← fld j "desc")
+    let f ← parseFlags (← fld j "flags")
+    let h ← oInt j "horizon"
+    let tape ← intList (← fldArr j "tape")
+    let draws ← mapM' (fun v => parseDraws (some v)) (← fldArr j "draws")
+    let hist ← parseHistory ((← oArr j "history").getD [])
+    match loadWorkload d f h tape draws with
+    | .error e => pure (errJ e)
+    | .ok ld =>
+      let (ld1, rel) := runHistory f ld hist []
+      pure (Json.mkObj [("ok", loadedJ ld), ("history", Json.arr rel.toArray),
+                        ("loops", jList (fun (s : LoopState) =>
+                          Json.mkObj [("remaining", jInt s.remaining), ("index", jInt s.index)]) ld1.loops),
+                        ("tape_left", jNat ld1.gen.tape.length)])
+  | "workers" =>
+    let ps ← mapM' parsePool (← fldArr j "pools")
+    pure (exceptJ ((loadWorkerPools ps).map (jList poolJ)))
+  | op => .error s!"unknown-op {op}"
+
+/-- Suite handler: one JSON case in, one JSON reply out. -/
+def handle (j : Json) : Json := guardE (handleE j)
 
 end ErdosVerif.Driver.Release
